@@ -46,7 +46,9 @@ func ConfigYAML(sc *world.Scenario, w *world.World) string {
 		case "file":
 			p("    file:")
 			p("      path: %s", st.PwmPath)
-			if st.RpmPath != "" {
+			if st.RpmConfigPath != "" {
+				p("      rpmPath: %s", st.RpmConfigPath)
+			} else if st.RpmPath != "" {
 				p("      rpmPath: %s", st.RpmPath)
 			}
 		case "cmd":
